@@ -179,6 +179,32 @@ def oracle(case):
                     sshow(s), [(sshow(k), sshow(v)) for k, v in d], r, sshow(want_s)))
         except irsem.Unsupported:
             pass
+    # -- expressions the library itself produces are IR expressions too: each must be equal to, hash like and be found by an independent
+    #    rebuild of its own structure (a node edited in place after construction would keep a stale hash)
+    if top != "aff":
+        from miasmx.expression.expression_helper import expr_simp
+        made = []
+        for how, f in (("expr_simp", lambda: expr_simp(build(s))), ("copy", lambda: build(s).copy()), ("visit", lambda: build(s).visit(lambda x: x)),
+                       ("canonize", lambda: build(s).canonize())):
+            try:
+                made.append((how, f()))
+            except Exception:
+                continue       # exceptions are judged by the laws above / by C05
+        for how, r in made:
+            try:
+                r2 = build(exprgen.to_script(r))
+            except Exception:
+                continue
+            try:
+                if (r == r2) and (r2 == r):
+                    if hash(r) != hash(r2):
+                        return (("derived", "equal_but_hash_differs", how), "the result of %s on %s is == to a rebuild of its own structure (%s), but their hashes differ" % (how, sshow(s), r))
+                    if {r2: 1}.get(r) != 1 or r not in set([r2]) or {r: 1}.get(r2) != 1:
+                        return (("derived", "equal_but_lookup_fails", how), "the result of %s on %s is not found in a dict / set keyed by an equal rebuild (%s)" % (how, sshow(s), r))
+                elif how != "expr_simp":
+                    pass
+            except Exception as ex:
+                return (exc_sig("derived", ex), "%s: %s comparing the result of %s on %s with its rebuild" % (type(ex).__name__, ex, how, sshow(s)))
     # -- canon
     try:
         cz = build(s).canonize()
@@ -258,7 +284,14 @@ def more_mutation(draw, s):
 def cases(draw):
     w = draw(st.sampled_from(exprgen.WIDTHS))
     s = draw(exprgen.expr(w, 3))
-    if draw(st.integers(0, 5)) == 0:
+    if draw(st.integers(0, 4)) == 0:
+        # an instance of a rewrite-rule template (adjacent slices under a Compose, nested slices, ...): the shapes on which the simplifier
+        # rebuilds or merges nodes
+        from vlib import rulegen
+        from checks.c05_simp import sub_general, kint_general
+        s = draw(rulegen.rules_strategy([8, 16, 32, 64], sub_general, kint_general))[1]
+        w = swidth(s)
+    if w in exprgen.WIDTHS and draw(st.integers(0, 5)) == 0:
         # an assignment: destination identifier or memory cell
         if w >= 8 and draw(st.booleans()):
             dst = ["mem", draw(exprgen.expr(32, 1, mem=False)), w, draw(st.sampled_from(exprgen.SEGS))]
@@ -289,6 +322,20 @@ def cases(draw):
             d.append([k, draw(fresh_value(swidth(k)))])
         # keys must not occur inside one another
         d = [kv for kv in d if not any(kv[0] != o[0] and contains(o[0], kv[0]) for o in d)]
+    if s[0] != "aff" and draw(st.integers(0, 3)) == 0:
+        # a map whose values mention other keys (swap, rotation, chain) over identifiers: substitution is simultaneous
+        byw = {}
+        for n_, w_ in sorted(sids(s).items()):
+            byw.setdefault(w_, []).append(n_)
+        groups = [(w_, ns) for w_, ns in sorted(byw.items()) if len(ns) >= 2]
+        if groups:
+            w_, ns = draw(st.sampled_from(groups))
+            ns = draw(st.permutations(ns))[:draw(st.integers(2, 3))]
+            kind = draw(st.sampled_from(["rotation", "chain"]))
+            if kind == "rotation":
+                d = [[["id", a, w_], ["id", ns[(i + 1) % len(ns)], w_]] for i, a in enumerate(ns)]
+            else:
+                d = [[["id", a, w_], (["op", "^", [["id", ns[i + 1], w_], ["id", "r%d" % w_, w_]]] if i + 1 < len(ns) else draw(fresh_value(w_)))] for i, a in enumerate(ns)]
     return {"s": s, "m": m, "d": d}
 
 
@@ -316,7 +363,7 @@ def main(run):
     run.rule = ("Hypothesis: well-typed scripts of all node kinds (incl. segmented ExprMem, ExprAff) x one-field mutation x replacement map over "
                 "non-nested sub-expressions with values over fresh identifiers; 8 valuations per value comparison. non-trivial = the case carries a "
                 "mutation or a non-empty replacement map; distinct = (expression text, mutation kind, map size)")
-    run.assumptions = ["vlib/irsem.py is the value semantics", "replacement values use identifiers that occur in no generated expression, so bottom-up and simultaneous substitution coincide",
+    run.assumptions = ["vlib/irsem.py is the value semantics", "replacement values use identifiers that occur in no generated expression (bottom-up and simultaneous substitution coincide), except for maps over identifiers only, whose values may mention other keys (swap, rotation, chain): there substitution is simultaneous",
                        "the destination of an assignment is never a replacement key"]
     n = run.pick(1500, 30000)
     runner.pmap(run, w_run, [n] * 16)
